@@ -46,6 +46,12 @@ def gen_cases(tier, seed):
                     i += 1
                     yield {'family': 'cp%d/%s' % (ncp, mode), 'sizes': sz, 'ncp': ncp, 'stale': stale, 'idx': i,
                            'seed': seed, 'tier': tier, 'mode': mode}
+    # the first resource has no fields left when it reaches the checkpoint (its rows are empty mappings)
+    for sz in ([5, 1, 2], [2, 3]):
+        for mode in ('kill', 'downstream'):
+            i += 1
+            yield {'family': 'cp1/%s/fieldless' % mode, 'sizes': sz, 'ncp': 1, 'stale': False, 'idx': i, 'seed': seed,
+                   'tier': tier, 'mode': mode, 'fieldless': True}
     for sz in sizes:
         if sum(sz):
             for rep in range(1 if tier == 'quick' else 4):
@@ -56,6 +62,9 @@ def gen_cases(tier, seed):
 
 def tables_for(sizes):
     return [[{'id': r * 1000 + i, 't': 'row-%d-%d é' % (r, i)} for i in range(n)] for r, n in enumerate(sizes)]
+
+
+FIELDLESS = [False]
 
 
 def make_flow(tables, ncp, cpdir, cnt, fail_at=None, src_fail=None, up_fail=None, early_stop=False):
@@ -98,6 +107,8 @@ def make_flow(tables, ncp, cpdir, cnt, fail_at=None, src_fail=None, up_fail=None
             if up_fail == 'pkg_end':
                 raise RuntimeError('upstream step failed after its last resource')
         steps.append(finishing)
+    if FIELDLESS[0]:
+        steps.append(d.delete_fields(['id', 't', 'a'], resources='res0'))
     steps.append(d.checkpoint('c0', checkpoint_path=cpdir))
     if ncp == 2:
         steps += [d.add_field('b', 'string', 'x'), d.checkpoint('c1', checkpoint_path=cpdir)]
@@ -126,7 +137,19 @@ def make_flow(tables, ncp, cpdir, cnt, fail_at=None, src_fail=None, up_fail=None
             except Exception:
                 pass
         steps.append(tolerant)
-    if early_stop:
+    if early_stop == 'close':
+        def first_row_then_close(rows):
+            # ... and, being a good citizen, closes the row iterator it was handed when it is done with it
+            it = iter(rows)
+            try:
+                yield next(it)
+            except StopIteration:
+                return
+            finally:
+                if hasattr(it, 'close'):
+                    it.close()
+        steps.append(first_row_then_close)
+    elif early_stop:
         import itertools
 
         def first_row_only(rows):
@@ -227,6 +250,7 @@ def run_case(case):
     tables = tables_for(case['sizes'])
     total = sum(case['sizes'])
     ncp = case['ncp']
+    FIELDLESS[0] = bool(case.get('fieldless'))
     scratch = os.getcwd()
     cfg = {'sizes': case['sizes'], 'checkpoints': ncp, 'stale_active': case['stale']}
     seen = set()
@@ -394,11 +418,12 @@ def run_case(case):
         recover(cpdir, complete, what)
         shutil.rmtree(cpdir, ignore_errors=True)
     # the saving run has a later step that stops reading early: what it saves is complete all the same
-    if case['mode'] == 'downstream' and total:
-        cpdir = 'e_stop'
+    for es_ in ((True, 'close') if case['mode'] == 'downstream' and total else ()):
+        cpdir = 'e_stop_%s' % es_
         prepare(cpdir)
-        code, rep = crashlab.in_child(lambda: run_plain(cpdir, early_stop=True), os.path.join(scratch, 'rep.json'))
-        what = 'a later step stops reading every resource after one row while the checkpoints are being saved'
+        code, rep = crashlab.in_child(lambda: run_plain(cpdir, early_stop=es_), os.path.join(scratch, 'rep.json'))
+        what = 'a later step stops reading every resource after one row%s while the checkpoints are being saved' % (
+            ' and closes the iterator it was given' if es_ == 'close' else '')
         counters['crash_points_executed'] += 1
         cov['mode']['later_step_stops_early_during_saving_run'] = 1
         if not rep or not rep.get('ok'):
